@@ -20,6 +20,7 @@ use sealed::sealed;
 use std::cmp::Ordering;
 use std::collections::btree_map;
 use std::collections::BTreeMap;
+use std::collections::BTreeSet;
 use std::collections::VecDeque;
 use std::fmt::Debug;
 use std::hash::{Hash, Hasher};
@@ -2054,6 +2055,7 @@ impl TextResource {
             textseliters: Vec::new(),
             buffer: VecDeque::new(),
             drain_buffer: false,
+            seen: BTreeSet::new(),
         }
     }
 }
@@ -2073,6 +2075,9 @@ pub struct FindTextSelectionsIter<'store> {
 
     // once bufferiter is set, we simply drain the buffer
     drain_buffer: bool,
+
+    /// results returned so far: with one candidate iterator per item of the reference set the same text selection can be found more than once
+    seen: BTreeSet<TextSelectionHandle>,
 }
 
 impl<'store> Iterator for FindTextSelectionsIter<'store> {
@@ -2080,10 +2085,19 @@ impl<'store> Iterator for FindTextSelectionsIter<'store> {
 
     fn next(&mut self) -> Option<Self::Item> {
         loop {
-            if self.drain_buffer {
-                return self.buffer.pop_front();
+            let result = if self.drain_buffer {
+                match self.buffer.pop_front() {
+                    Some(result) => result,
+                    None => return None,
+                }
             } else if let Some(result) = self.next_textselection() {
                 //this will eventually set self.drain_buffer = true and trigger the stop condition once the buffer is empty
+                result
+            } else {
+                continue;
+            };
+            //each result is returned only once
+            if self.seen.insert(result) {
                 return Some(result);
             }
         }
@@ -2098,17 +2112,22 @@ impl<'store> FindTextSelectionsIter<'store> {
     /// The reference text selection is always in the subject position for the associated [`TextSelectionOperator`] (`operator()`)
     /// The boolean returns the direction of iteration (true = forward, false = backwards)
     fn init_textseliters(&mut self) {
+        // A forward iterator over range(a, b) yields the text selections that *begin* in [a, b),
+        // a backward iterator those that *end* in [a, b). Positions run up to and including
+        // textlen (a selection may end there, or be a zero-width selection at that point).
+        // Negated operators can not be narrowed down and take the maximum slice.
+        let upper = self.resource.textlen() + 1;
         match self.operator {
-            TextSelectionOperator::Embeds { .. } => {
+            TextSelectionOperator::Embeds { negate: false, .. } => {
                 for reftextselection in self.refset.iter() {
                     self.textseliters.push((
                         self.resource
-                            .range(reftextselection.begin(), reftextselection.end()),
+                            .range(reftextselection.begin(), reftextselection.end() + 1),
                         true,
                     ));
                 }
             }
-            TextSelectionOperator::SameBegin { .. } => {
+            TextSelectionOperator::SameBegin { negate: false, .. } => {
                 self.textseliters.push((
                     self.resource.range(
                         self.refset.begin().unwrap(),
@@ -2117,15 +2136,19 @@ impl<'store> FindTextSelectionsIter<'store> {
                     true,
                 ));
             }
-            TextSelectionOperator::SameEnd { .. } => {
+            TextSelectionOperator::SameEnd { negate: false, .. } => {
                 self.textseliters.push((
                     self.resource
                         .range(self.refset.end().unwrap(), self.refset.end().unwrap() + 1),
                     false, //search backwards! end must be in range above
                 ));
             }
-            TextSelectionOperator::After { limit, .. } => {
-                //self comes after found items, so find items before self:
+            TextSelectionOperator::After {
+                negate: false,
+                limit,
+                ..
+            } => {
+                //self comes after found items, so find items that end before self begins:
                 let begin = if let Some(limit) = limit {
                     if limit >= self.refset.begin().unwrap() {
                         0
@@ -2136,54 +2159,58 @@ impl<'store> FindTextSelectionsIter<'store> {
                     0
                 };
                 self.textseliters.push((
-                    self.resource.range(begin, self.refset.begin().unwrap()),
-                    true,
+                    self.resource.range(begin, self.refset.begin().unwrap() + 1),
+                    false, //search backwards! end must be in range above
                 ));
             }
             TextSelectionOperator::Succeeds {
-                allow_whitespace, ..
+                negate: false,
+                allow_whitespace,
+                ..
             } => {
+                //found items end where self begins (or earlier if whitespace is allowed)
+                let begin = if allow_whitespace {
+                    0
+                } else {
+                    self.refset.begin().unwrap()
+                };
                 self.textseliters.push((
-                    self.resource.range(
-                        self.refset.begin().unwrap(),
-                        self.refset.begin().unwrap()
-                            + if allow_whitespace {
-                                WHITESPACE_LIMIT + 1
-                            } else {
-                                1
-                            },
-                    ),
+                    self.resource.range(begin, self.refset.begin().unwrap() + 1),
                     false, //search backwards!! end must be in range above
                 ));
             }
-            TextSelectionOperator::Before { limit, .. } => {
+            TextSelectionOperator::Before {
+                negate: false,
+                limit,
+                ..
+            } => {
                 //self comes before found items, so find items after self:
                 let end = if let Some(limit) = limit {
-                    self.refset.end().unwrap() + limit
+                    std::cmp::min(self.refset.end().unwrap() + limit + 1, upper)
                 } else {
-                    self.resource.textlen()
+                    upper
                 };
                 self.textseliters
                     .push((self.resource.range(self.refset.end().unwrap(), end), true));
             }
             TextSelectionOperator::Precedes {
-                allow_whitespace, ..
+                negate: false,
+                allow_whitespace,
+                ..
             } => {
-                self.textseliters.push((
-                    self.resource.range(
-                        self.refset.end().unwrap(),
-                        self.refset.end().unwrap()
-                            + if allow_whitespace {
-                                WHITESPACE_LIMIT + 1
-                            } else {
-                                1
-                            },
-                    ),
-                    true,
-                ));
+                //found items begin where self ends (or later if whitespace is allowed)
+                let end = if allow_whitespace {
+                    upper
+                } else {
+                    self.refset.end().unwrap() + 1
+                };
+                self.textseliters
+                    .push((self.resource.range(self.refset.end().unwrap(), end), true));
             }
             TextSelectionOperator::Embedded {
-                limit: Some(limit), ..
+                negate: false,
+                limit: Some(limit),
+                ..
             } => {
                 let halfway = self.resource.textlen() / 2;
                 for reftextselection in self.refset.iter() {
@@ -2193,13 +2220,12 @@ impl<'store> FindTextSelectionsIter<'store> {
                         } else {
                             0
                         };
-                        self.textseliters
-                            .push((self.resource.range(begin, reftextselection.end()), true));
+                        self.textseliters.push((
+                            self.resource.range(begin, reftextselection.begin() + 1),
+                            true,
+                        ));
                     } else {
-                        let mut end = reftextselection.end() + limit;
-                        if end > self.resource.textlen() {
-                            end = self.resource.textlen();
-                        }
+                        let end = std::cmp::min(reftextselection.end() + limit + 1, upper);
                         self.textseliters.push((
                             self.resource.range(reftextselection.end(), end),
                             false, //search backwards!!
@@ -2207,23 +2233,43 @@ impl<'store> FindTextSelectionsIter<'store> {
                     }
                 }
             }
-            TextSelectionOperator::Overlaps { .. } | TextSelectionOperator::Embedded { .. } => {
+            TextSelectionOperator::Embedded { negate: false, .. } => {
                 let halfway = self.resource.textlen() / 2;
                 for reftextselection in self.refset.iter() {
                     if reftextselection.begin() <= halfway {
-                        self.textseliters
-                            .push((self.resource.range(0, reftextselection.end()), true));
+                        self.textseliters.push((
+                            self.resource.range(0, reftextselection.begin() + 1),
+                            true,
+                        ));
                     } else {
                         self.textseliters.push((
-                            self.resource
-                                .range(reftextselection.end(), self.resource.textlen()),
+                            self.resource.range(reftextselection.end(), upper),
+                            false, //search backwards!!
+                        ));
+                    }
+                }
+            }
+            TextSelectionOperator::Overlaps { negate: false, .. } => {
+                let halfway = self.resource.textlen() / 2;
+                for reftextselection in self.refset.iter() {
+                    if reftextselection.begin() <= halfway {
+                        //anything that overlaps begins no later than the reference ends
+                        self.textseliters.push((
+                            self.resource.range(0, reftextselection.end() + 1),
+                            true,
+                        ));
+                    } else {
+                        //anything that overlaps ends no earlier than the reference begins
+                        self.textseliters.push((
+                            self.resource.range(reftextselection.begin(), upper),
                             false, //search backwards!!
                         ));
                     }
                 }
             }
             _ => {
-                self.textseliters.push((self.resource.iter(), true)); //return the maximum slice
+                self.textseliters
+                    .push((self.resource.range(0, upper), true)); //return the maximum slice
             }
         }
     }
